@@ -2,7 +2,8 @@
 Proof : coq/C09 (replace_tags / replace_uniq model, round trip, body verbatim, marker inert; marker atomic in the
         scanner model of coq/C10; entity decoding of nowiki/pre bodies over the resolve_entity model of coq/C01).
 Tie   : extracted model vs Uniquifier.replace_tags/replace_uniq on generated texts.
-Search: bodies over the markup alphabet x tags x contexts through parse_string, tree oracle."""
+Search: bodies over the markup alphabet (incl. entity-encoded spellings of markup) x tags x contexts (incl. transclusion through
+        <pages>) through parse_string, tree oracle (nowiki/pre: every valid character reference decoded exactly once)."""
 import json
 import os
 import re
@@ -64,6 +65,8 @@ ENCODED_FRAGS = [
     "&#91;&#91;Link&#93;&#93;", "&#x5b;&#x5B;a&#124;b&#x5d;&#x5D;", "&#123;&#123;c&#125;&#125;", "&#x7b;&#x7B;&#x7b;1&#x7D;&#x7d;&#x7D;",
     "&#39;&#39;i&#39;&#39;", "&#x27;&#x27;&#x27;b&#x27;&#x27;&#x27;", "&#10;* li", "&#x0A;== h ==&#x0a;", "&#123;&#124;", "&#126;&#126;&#126;&#126;",
     "&amp;lt;nowiki&amp;gt;", "&amp;lt;/nowiki&amp;gt;", "&#38;#60;", "&amp;#x5B;&#x26;#x5b;", "&#x7f;", "&#127;UNIQ",
+    # written nowiki pairs in other letter cases / around entity-written ones (pre drops the written pair only)
+    "<NOWIKI>N</NoWiki>", "<nowiki>&lt;nowiki&gt;</nowiki>", "<Nowiki>&lt;/nowiki&gt;</NOWIKI>",
 ]
 FRAGS = FRAGS + ENCODED_FRAGS
 FRAG_CLASS = {}
@@ -659,6 +662,71 @@ def run_tie(run, cases, exe, src):
     return dis, stats
 
 
+PRE_PIECES = ["<nowiki>", "</nowiki>", "<NOWIKI>", "</NoWiki>", "<nowi\u212aI>", "</now\u0131ki>", "<now\u0130ki>", "<nowiki >", "</nowiki >", "<nowiki/>",
+              "<nowiki", "nowiki>", "</", "<", ">", "&lt;nowiki&gt;", "&lt;/nowiki&gt;", "&#60;NOWIKI&#62;", "&#60;/nowiki&#x3e;", "x", "''y''", "[[x]]", "\n", " ",
+              "&amp;", "<pre>", "<\u017fource>", "\u212a", "\u0131", "<nowiki>n</nowiki>", "<NOWIKI></NOWIKI>"]
+
+
+def gen_pre_tie_cases(rng, n):
+    cases, seen = [], set()
+    for a in PRE_PIECES:              # systematic: every piece alone and every ordered pair around a filler
+        for b in [None] + PRE_PIECES:
+            t = a if b is None else a + "q" + b
+            if t not in seen:
+                seen.add(t)
+                cases.append(t)
+    while len(cases) < n + len(PRE_PIECES) * (len(PRE_PIECES) + 1):
+        t = "".join(rng.choice(PRE_PIECES) for _ in range(rng.randint(1, 7)))
+        if t not in seen:
+            seen.add(t)
+            cases.append(t)
+    return [{"id": i, "text": t} for i, t in enumerate(cases)]
+
+
+def run_pre_tie(run, cases, exe, src):
+    inp = "".join(json.dumps(c) + "\n" for c in cases)
+    rc, out = core.run_impl("vt.harness.c09_impl", ["pre"], src=src, input=inp, timeout=3000)
+    ires = [json.loads(ln) for ln in out.splitlines() if ln.startswith("{")]
+    if rc != 0 or len(ires) != len(cases):
+        raise RuntimeError("impl harness (pre) failed rc=%s got %d/%d: %s" % (rc, len(ires), len(cases), out[-600:]))
+    if not exe:
+        return ["no extracted model"]
+    lines = "".join("1|" + core.cps(c["text"]) + "\n" for c in cases)
+    p = subprocess.run([exe], input=lines, capture_output=True, text=True, timeout=3000)
+    mres = p.stdout.splitlines() if p.stdout.endswith("\n") else []
+    if len(mres) != len(cases):
+        return ["model driver returned %d/%d lines: %s" % (len(mres), len(cases), p.stderr[-300:])]
+    dis = []
+    changed = 0
+    for c, a, m in zip(cases, ires, mres):
+        t = c["text"]
+        if "error" in a:
+            run.hit("remove_nowiki_tags-exception:" + a["error"][:60], "util.remove_nowiki_tags raised %s on %r" % (a["error"], t[:120]),
+                    {"kind": "pre", "case": c})
+            continue
+        changed += a["out"] != t
+        run.count(("pre", t), nontrivial=(a["out"] != t or "nowiki" in t.lower()))
+        mo = None if m == "ERR" else core.uncps(m)
+        if mo != a["out"]:
+            dis.append("remove_nowiki_tags differs on %r: impl %r model %r" % (t, a["out"], mo))
+        # the property's own oracle on the real function: without a literal '<' nothing is removed; what is removed is only
+        # written <nowiki> / </nowiki> parts: the output is a subsequence of the input and the removed length is a multiple of
+        # what pairs account for (17 characters per pair)
+        if "<" not in t and a["out"] != t:
+            run.hit("pre:removed-without-written-tag:" + json.dumps(t), "remove_nowiki_tags changes a text without '<': %r -> %r" % (t, a["out"]),
+                    {"kind": "pre", "case": c})
+        elif (len(t) - len(a["out"])) % 17 or not is_subsequence(a["out"], t):
+            run.hit("pre:not-only-pairs-removed:" + json.dumps(t), "remove_nowiki_tags removes something else than written nowiki pairs: %r -> %r" % (t, a["out"]),
+                    {"kind": "pre", "case": c})
+    run.coverage["pre_tie_distribution"] = {"cases": len(cases), "changed_by_remove_nowiki_tags": changed}
+    return dis
+
+
+def is_subsequence(a, b):
+    it = iter(b)
+    return all(ch in it for ch in a)
+
+
 # --------------------------------------------------------------------------- the check
 
 def generate(src):
@@ -688,21 +756,36 @@ KNOWN_CLASSES = {
 
 def check(run):
     run.rule = ("search: wikitext = context[<tag attrs>body</tag>], tag in {nowiki,pre,math,source,syntaxhighlight,timeline}; body = every single "
-                "fragment of a 140-fragment markup alphabet (systematic part, sampled 28% in quick, all in thorough) and random concatenations of "
-                "1..5 (quick) / 1..8 (thorough) fragments not containing the tag's own closing tag nor 0x7f; 14 contexts (top level, alone, list item, two regions of the same tag, "
-                "table cell, bold, each with and without a template universe, positional/named template argument, template body), thorough adds 16 "
+                "fragment of a %d-fragment markup alphabet (systematic part, sampled 28%% in quick, all in thorough) and random concatenations of "
+                "1..5 (quick) / 1..8 (thorough) fragments not containing the tag's own closing tag nor 0x7f; the alphabet includes entity-ENCODED spellings "
+                "(named, decimal, hex, padded, mixed case) of the opaque tags' own syntax and of other markup, doubly escaped ones, and references to 0x7f; "
+                "entity-encoded family: %d paired constructs (nowiki/pre/math/.. pairs, links, templates, comments, html, block markup) x 4 uniform "
+                "encodings x 6 tags x contexts (nowiki/pre in 5 core contexts always, the rest sampled in quick) + random partially/mixed-style encoded "
+                "concatenations with real markup around them (700 quick / 20000 thorough); "
+                "%d contexts (top level, alone, list item, two regions of the same tag, "
+                "table cell, bold, each with and without a template universe, positional/named template argument, template body, and 5 transclusions through "
+                "<pages index=.. from=.. to=../> / <pages from=title to=title/> of wiki-database pages that hold the region, with 0..2 regions of the SAME tag in "
+                "the article before/after the <pages> tag and in an earlier page of the range, so that the article's and the transcluded pages' marker "
+                "tables have entries of the same tag and running number), thorough adds %d "
                 "more (heading, link caption, definition list, div, italic, #if, nested template argument, table caption, blockquote, html list, "
-                "external link, image caption, cell with attributes, space-indented line, <ref> with/without wikidb); oracle: tree(context[body]) = tree(context[placeholder]) with the placeholder leaf replaced by the body. "
-                "multi-region pages: 2..4 protected regions on one page (6 layouts, regions on the page / in a template argument / in a template body, with and "
+                "external link, image caption, cell with attributes, space-indented line, <ref> with/without wikidb, <pages> inside <ref>, <ref> inside a "
+                "transcluded page, <pages> inside a transcluded page, {{#tag:pages}}, table in a transcluded page); oracle: tree(context[body]) = "
+                "tree(context[placeholder]) with the placeholder leaf replaced by the body -- for nowiki/pre by the body with every valid character "
+                "reference decoded exactly once (pre: after removing the nowiki pairs literally written in it): nothing that only exists after decoding "
+                "is interpreted, removed or decoded again, and every valid reference IS decoded. "
+                "multi-region pages: 2..4 protected regions on one page (6 layouts, regions on the page / in a template argument / in a template body / in a page "
+                "transcluded through <pages> (consecutive ones share one range = one second marker table), with and "
                 "without template universe) where each further region is with probability 3/4 RELATED to an earlier one -- a <nowiki>/<pre>/.. wrapped copy of "
                 "its complete source, the same body under another tag, the same tag+body with other attributes, the very same region -- in either order, plus a "
-                "systematic part (every base tag in the 6 opaque + ref, poem x every wrapper tag x both orders x 3 placements); every opaque region of a page is "
+                "systematic part (every base tag in the 6 opaque + ref, poem x every wrapper tag x both orders x 3 placements; every pair of opaque tags, "
+                "same tag included, one in the article and one in a <pages>-transcluded page, both orders; nowiki-wrapped copies across that border); every opaque region of a page is "
                 "the focus of one tree-oracle case (only its own body -> placeholder, copies keep their text) so each region is attributed separately. "
                 "tie: the same related-region pages as flat texts with '<'-free separators, where the regions are known by construction: the marker at the "
                 "place of region i must resolve to region i's own (tag, attributes, body, source) in the real table, and restore to its own source; "
                 "texts of 1..5 pieces (tag occurrence with attribute/termination/case variants, comment with newline/space borders, markup text, "
                 "marker-like strings) + a systematic tags x attribute forms x termination forms part. distinct = distinct input; "
-                "non-trivial = at least one region replaced (tie) / every search case (all bodies contain markup)")
+                "non-trivial = at least one region replaced (tie) / every search case (all bodies contain markup)"
+                % (len(FRAGS), len(ENC_PAIRED), len(CONTEXTS), len(THOROUGH_CONTEXTS)))
     run.trusted = ["Coq 8.16.1 kernel (coqc); vm_compute for the table obligations and the Examples",
                    "extraction (ExtrOcamlBasic directives only) + ocaml/c09/driver.ml",
                    "hand-written transcription of the replace_tags regex, replace_uniq, get_uniq (coq/C09/Model.v); tie = differential run; the regex "
@@ -721,7 +804,8 @@ def check(run):
                        "round trip is stated for texts without 0x7f and without the four non-ASCII code points that re.IGNORECASE folds onto i, k, s",
                        "entity decoding: int() and html.entities are Section variables of coq/C01's resolve_entity (any int(), any table in range); "
                        "'only VALID references change' needs pyint_strict, which CPython's int() does not satisfy on the lenient pattern '&[^;]*;' "
-                       "(C09_entity_lenient_int_refuted; fixes/C09-entity-lenient-int.diff); remove_nowiki_tags (pre) is not modelled"]
+                       "(C09_entity_lenient_int_refuted; fixes/C09-entity-lenient-int.diff); remove_nowiki_tags (pre) is modelled in coq/C09/PreModel.v "
+                       "(shape and order pinned by the translator, IGNORECASE folds regenerated, run against the real function)"]
     src = core.snapshot()
     info = {}
 
@@ -764,6 +848,12 @@ def check(run):
     dis, stats = run_tie(run, cases, exe, src)
     run.tie("Uniquifier.replace_tags / replace_uniq vs extracted protect / restore (text, table, restored text, probe)", len(cases), dis)
     run.coverage["tie_distribution"] = stats
+
+    # ---- tie 2: util.remove_nowiki_tags (the <pre> body step) vs the extracted remove_nowiki_tags of coq/C09/PreModel.v
+    pcases = gen_pre_tie_cases(run.rng, 1500 if tier == "quick" else 40000)
+    pdis = run_pre_tie(run, pcases, exe, src)
+    run.tie("util.remove_nowiki_tags vs extracted remove_nowiki_tags (pairs written in any letter case incl. the non-ASCII folds, unclosed, "
+            "nested, entity-written pairs, newlines)", len(pcases), pdis)
 
     # ---- model-level finite obligations that depend on the generated tables
     mres = model_run(exe, [c for c in cases[:400]]) if exe else []
@@ -841,24 +931,40 @@ def check(run):
                     {"kind": "tree", "case": c, "why": r["why"]})
         else:
             seen = set()
-            for c, r in lst[:3]:
+            # independent faults (different create_* handlers, different manifestations such as a raw marker vs a silent body
+            # swap) must not hide each other: greedy pick of 3 cases (vt/core reports at most 5 hits per run), each time the
+            # smallest case with the most novelty (tag not yet picked, context not yet picked)
+            picked, tags_seen, ctx_seen = [], set(), set()
+            pool = list(lst)
+            while pool and len(picked) < 3:
+                best = max(pool, key=lambda cr: (cr[0]["tag"] not in tags_seen) + (cr[0]["ctx"] not in ctx_seen))   # first maximal = smallest
+                picked.append(best)
+                tags_seen.add(best[0]["tag"])
+                ctx_seen.add(best[0]["ctx"])
+                pool = [cr for cr in pool if cr is not best]
+            for c, r in picked:
                 m = shrink(c, src, contexts, kinds=(r["kind"],)) if c["ctx"] in contexts else c
                 fp = "opacity:%s:%s:%s" % (m["tag"], m["ctx"], json.dumps(m["body"]))
                 if fp in seen:
                     continue
                 seen.add(fp)
-                run.hit(fp, "body of <%s> not opaque in context %s: %r (%s)" % (m["tag"], m["ctx"], m["body"], r["why"][:200]),
+                if m is not c:
+                    r2 = run_tree([dict(m, id=0)], src, 1)[0]      # the diagnosis of the minimised case
+                    r = r2 if not r2["ok"] else r
+                run.hit(fp, "body of <%s> not opaque in context %s: %r (%s)" % (m["tag"], m["ctx"], m["body"], r["why"][:330]),
                         {"kind": "tree", "case": m, "why": r["why"]})
     # several regions on one page: minimise (drop regions, simplify placement, shrink literal bodies -- copies follow)
     multi_failing.sort(key=lambda cr: (len(cr[0]["raw"]), cr[0]["raw"], cr[0]["focus"]))
 
-    def tree_fails(sf_list):
-        cs = [pages.make_case(j, sp, f) for j, (sp, f) in enumerate(sf_list)]
-        return [not r["ok"] and r["kind"] in ("mismatch", "exception") for r in run_tree(cs, src, 4)]
+    def tree_fails_as(kinds):
+        def tree_fails(sf_list):
+            cs = [pages.make_case(j, sp, f) for j, (sp, f) in enumerate(sf_list)]
+            return [not r["ok"] and r["kind"] in kinds for r in run_tree(cs, src, 4)]
+        return tree_fails
     seen = set()
     for c, r in multi_failing[:3]:
-        if r["kind"] in ("mismatch", "exception"):
-            sp, f = pages.shrink(c["spec"], c["focus"], tree_fails)
+        if r["kind"] in ("mismatch", "exception", "lost"):
+            sp, f = pages.shrink(c["spec"], c["focus"], tree_fails_as(("lost",) if r["kind"] == "lost" else ("mismatch", "exception")))
             m = pages.make_case(0, sp, f)
             r = run_tree([m], src, 1)[0]
         else:
@@ -911,6 +1017,13 @@ def replay(obj):
         if mis:
             print("regions not attributed separately: " + mis[0])
         bad = bool(rr.hits) or "error" in r or bool(mis)
+    elif rp.get("kind") == "pre":
+        c = dict(rp["case"], id=0)
+        rc, out = core.run_impl("vt.harness.c09_impl", ["pre"], src=src, input=json.dumps(c) + "\n", timeout=600)
+        r = [json.loads(ln) for ln in out.splitlines() if ln.startswith("{")][0]
+        print(json.dumps({"text": c["text"], "result": r}, indent=1))
+        t = c["text"]
+        bad = "error" in r or ("<" not in t and r["out"] != t) or bool((len(t) - len(r["out"])) % 17) or not is_subsequence(r["out"], t)
     else:
         print(json.dumps(rp, indent=1))
         return 1
